@@ -118,12 +118,12 @@ func ParseCSeqVal(buf []byte, offs int, pcs *PCSeqBody) (int, ErrorHdr) {
 				pcs.soffs = i
 				pcs.CSeqNo = uint32(c - '0')
 			case csFoundDigit:
-				v := pcs.CSeqNo*10 + uint32(c-'0')
-				if pcs.CSeqNo > v {
+				v := uint64(pcs.CSeqNo)*10 + uint64(c-'0')
+				if v > MaxCSeqNValue {
 					// overflow
 					return i, ErrHdrNumTooBig
 				}
-				pcs.CSeqNo = v
+				pcs.CSeqNo = uint32(v)
 			case csEndDigit:
 				pcs.state = csFoundMethod // method starting with a number(!)
 				pcs.soffs = i
